@@ -21,7 +21,11 @@ Dispose == /\ IsEv("dispose") /\ ~gone
                 [] e.kind = "ok" -> E.exc = "" /\ E.freed = 0 /\ gone' = FALSE
                 [] e.kind = "refuse" -> E.exc \in e.excs /\ E.freed = 0 /\ E.same = 1 /\ gone' = FALSE     \* raised, object intact
            /\ UNCHANGED <<ocls, oreg>>
-TNext == Plain \/ Obtain \/ Dispose
+(* heap objects deleted by their owner's destructor while the collector sweeps: each is finalised at most once, none twice,
+   and no release of an already released block is attempted (the library reports that as ValueError) *)
+Owned == /\ IsEv("owned") /\ UNCHANGED <<ocls, oreg, gone>>
+         /\ E.exc = "" /\ E.lerr = 0 /\ E.issued = E.pairs /\ E.retired <= E.issued
+TNext == Plain \/ Obtain \/ Dispose \/ Owned
 TSpec == TInit /\ [][TNext]_tv
 Accepted == LET d == TLCGet("stats").diameter IN
             /\ PrintT(<<"TRACE_MATCHED", d - 1, Len(T)>>)
